@@ -99,6 +99,30 @@ MUTANTS = [
      "                ess = effective_sample_size(samples.log_weights(0.5 * (beta + samples.beta)))\n"),
     ("c18-resume-dup", ["C18"], S + "samplers/smc/base.py",
      "        if store_sample_history and not resumed:", "        if store_sample_history:"),
+    # ---- C15
+    ("c15-to-namespace-drops-logq", ["C15"], S + "samples.py",
+     "            log_q=self.log_q,\n            xp=xp,\n            device=self.device,\n            dtype=dtype,",
+     "            xp=xp,\n            device=self.device,\n            dtype=dtype,"),
+    ("c15-samples-to-namespace-default-width", ["C15"], S + "samples.py",
+     "            if self.log_evidence_error is not None\n            else None,\n            xp=xp,\n            dtype=dtype,\n        )",
+     "            if self.log_evidence_error is not None\n            else None,\n            xp=xp,\n        )"),
+    ("c15-final-samples-dtype", ["C15"], S + "samples.py",
+     "            xp=self.xp,\n            dtype=self.dtype,\n            parameters=self.parameters,\n            log_evidence=self.log_evidence,",
+     "            xp=self.xp,\n            parameters=self.parameters,\n            log_evidence=self.log_evidence,"),
+    ("c15-dlpack-ignores-dtype", ["C15"], S + "utils.py",
+     "        if dtype is not None:\n            tensor = tensor.to(resolve_dtype(dtype, xp=xp))\n        return tensor",
+     "        return tensor"),
+    ("c15-from-samples-drops-dtype", ["C15"], S + "samples.py",
+     "            xp=xp,\n            device=device,\n            dtype=dtype,\n            **kwargs,", "            xp=xp,\n            device=device,\n            **kwargs,"),
+    ("c15-smc-to-namespace-beta", ["C15"], S + "samples.py",
+     "        samples = super().to_namespace(xp, dtype=dtype)\n        samples.beta = self.beta\n", "        samples = super().to_namespace(xp, dtype=dtype)\n"),
+    ("c15-importance-dtype", ["C15"], S + "samplers/importance.py",
+     "            parameters=self.parameters,\n            dtype=self.dtype,\n        )", "            parameters=self.parameters,\n        )"),
+    ("c15-zuko-grad", ["C15"], S + "flows/torch/flows.py",
+     "        with torch.no_grad():\n            x_prime, log_abs_det_jacobian = self.rescale(x)\n            log_prob = self._flow().log_prob(x_prime) + log_abs_det_jacobian",
+     "        if True:\n            x_prime, log_abs_det_jacobian = self.rescale(x)\n            log_prob = self._flow().log_prob(x_prime) + log_abs_det_jacobian"),
+    ("c15-resolve-upper", ["C15"], S + "utils.py",
+     "    return name.strip(\" '\\\"<>\").lower()", "    return name.strip(\" '\\\"<>\")"),
     # ---- C16
     ("c16-weights-not-sliced", ["C16"], S + "samples.py",
      "                sliced.weights = self.array_to_namespace(self.weights[idx])", "                sliced.weights = self.weights"),
